@@ -3,7 +3,7 @@
    `lawful A h` = the aggregation's state after absorbing rows W is h W, on_new extends W, on_old removes a prefix
    of W (on_old is the inverse of on_new).  `prefixes batches` = concat of the first k batches, k = 1..|batches|. *)
 From Coq Require Import List ZArith QArith Qcanon Bool.
-From SZ Require Import DF.Window DF.WindowProofs DF.WindowGroupProofs.
+From SZ Require Import DF.Window DF.WindowProofs DF.WindowGroupProofs DF.WindowVar.
 Import ListNotations.
 Close Scope Qc_scope. Close Scope Q_scope. Open Scope nat_scope.
 
@@ -58,6 +58,19 @@ Theorem C07_window_t_mean : forall T batches, (1 <= T)%Z -> ssorted (concat batc
 Proof. exact (window_t_correct (mean_agg true true) mean_h (mean_lawful true true eq_refl)). Qed.
 Print Assumptions C07_window_t_mean.
 
+(* var: the streaming formula on (sum, sum of squares, count) is pandas' two-pass variance, NaN for n <= ddof *)
+Theorem C07_var_is_pandas : forall ddof f, ddof = 0%Z \/ ddof = 1%Z -> var_fin ddof (var_h f) = pd_var ddof f.
+Proof. exact var_fin_is_pandas. Qed.
+Theorem C07_window_n_var_pandas : forall scalar fx ddof, (scalar && negb fx = false)%bool -> ddof = 0%Z \/ ddof = 1%Z ->
+  forall N batches,
+  wrun (var_agg scalar fx ddof) (WN N) batches = map (fun p => RScal (pd_var ddof (window_n N p))) (prefixes batches).
+Proof. exact window_n_var_pandas. Qed.
+Theorem C07_window_t_var_pandas : forall scalar fx ddof, (scalar && negb fx = false)%bool -> ddof = 0%Z \/ ddof = 1%Z ->
+  forall T batches, (1 <= T)%Z -> ssorted (concat batches) ->
+  wrun (var_agg scalar fx ddof) (WT true T) batches = map (fun p => RScal (pd_var ddof (window_t T p))) (prefixes batches).
+Proof. exact window_t_var_pandas. Qed.
+Print Assumptions C07_window_t_var_pandas.
+
 (* windowed groupby (column grouper): the emitted Series is pandas' groupby over the window rows: exactly the keys
    present in the window, sorted, each with the aggregation of its rows; keys whose rows all left the window are
    gone, keys that come back re-appear *)
@@ -78,6 +91,14 @@ Proof. exact wgroupby_keys_t. Qed.
 Print Assumptions C07_wgroupby_n_correct.
 Print Assumptions C07_wgroupby_t_correct.
 Print Assumptions C07_wgroupby_keys.
+
+(* streaming grouper (window.groupby(window.key): a second zipped stream kept in `groupers`, aligned by diff_align)
+   = column grouper, for row-count windows; with C07_wgroupby_n_correct this gives the pandas result for both *)
+Theorem C07_diff_align_shape : forall dfs1 dfs' old, shape dfs1 dfs' old -> diff_align dfs' (K dfs1) = (K old, K dfs').
+Proof. exact diff_align_shape. Qed.
+Theorem C07_wgroupby_streaming_n : forall A N batches, grun A true (WN N) batches = grun A false (WN N) batches.
+Proof. exact wgroupby_streaming_n. Qed.
+Print Assumptions C07_wgroupby_streaming_n.
 
 (* as-found code: the property fails (each witness is replayed on the real code by the check) *)
 Theorem C07_diff_loc_boundary_refuted : exists T batches, (1 <= T)%Z /\ ssorted (concat batches) /\
